@@ -397,7 +397,20 @@ def symbolic_product(lhs, rhs):
             if not isinstance(symbolic, LinearPolynomial):
                 symbolic = LinearPolynomial[int]({symbolic: 1})
             return symbolic * value
-    return wait(lhs) * wait(rhs)
+    # Neither is computable speculatively: compute them for real, in turn. The
+    # first one that turns out to be a number is the factor; if its value
+    # depends on something that is being computed right now (a cycle), it has
+    # to be the other one.
+    not_ready()
+    for symbolic, number in ((lhs, rhs), (rhs, lhs)):
+        try:
+            value = wait(number)
+        except DeferredCycle:
+            continue
+        if not isinstance(symbolic, LinearPolynomial):
+            symbolic = LinearPolynomial[int]({symbolic: 1})
+        return symbolic * value
+    raise DeferredCycle()
 
 
 class Concatenator(BaseDeferred):
